@@ -335,6 +335,9 @@ class NumpyModel:
         if root in ("numpy", "numpy.linalg", "scipy.linalg", "numpy.ma", "numpy.random", "scipy.special"):
             f = getattr(self, "np_" + last, None)
             if f is not None:
+                op = [a for a in args if isinstance(a, Opaque)]
+                if op:
+                    return I.opaque(f"{last} of an opaque value ({op[0].reason})", node)
                 return f(*args, **kwargs)
         if root == "builtins":
             f = getattr(self, "b_" + last, None)
